@@ -39,7 +39,7 @@ ASSUMPTIONS = [
 @st.composite
 def nc_case(draw):
     c = draw(gen.normalised_counts_case(min_patches=2, max_patches=7, exact=True))
-    return {"kind": draw(st.sampled_from(["PatchedCounts", "PatchedSumWeights", "NormalisedCounts"])), "c": c}
+    return {"kind": draw(st.sampled_from(["PatchedCounts", "PatchedSumWeights", "NormalisedCounts"])), "c": c, "prior": draw(st.sampled_from([None, None, "get_array", "sample"]))}
 
 
 def _distinct_rows(counts):
@@ -70,9 +70,15 @@ def run_nc(case):
         obj = gen.build_normalised(c)
         ref = lambda k: osx.normalised_total(c, k)  # noqa
     with np.errstate(all="ignore"):
+        if case.get("prior") == "get_array":
+            ck.call(obj.get_array, f"get_array:{kind}")
+        elif case.get("prior") == "sample":
+            ck.call(obj.sample_patch_sum, f"sample_patch_sum:{kind}")  # an earlier evaluation on the same object
         ok, s = ck.call(obj.sample_patch_sum, f"sample_patch_sum:{kind}")
     if not ok:
         return ck.results()
+    if case.get("prior"):
+        ck.cls(f"prior:{case['prior']}")
     ck.expect(s.samples.shape == (npatch, len(c["binning"]["edges"]) - 1), f"samples:{kind}:shape", str(s.samples.shape))
     ck.expect(np.array_equal(s.data, ref(None), equal_nan=True), f"data:{kind}:not-sum-over-all", lambda: f"{s.data} vs {ref(None)}")
     for k in range(npatch):
@@ -88,7 +94,9 @@ def run_nc(case):
 
 @st.composite
 def cf_case(draw):
-    return draw(gen.corrfunc_case(min_patches=2, max_patches=7, exact=True, max_bins=4))
+    c = draw(gen.corrfunc_case(min_patches=2, max_patches=7, exact=True, max_bins=4))
+    c["prior"] = draw(st.sampled_from([None, None, "sample", "get_array"]))  # earlier read-only use of the same object
+    return c
 
 
 def _cf_reference(c, k):
@@ -131,9 +139,17 @@ def run_cf(case):
         ck.cls("ls_without_dr(not judged)")
         return ck.results()
     with np.errstate(all="ignore"):
+        prior = c.get("prior")
+        if prior == "sample":
+            ck.call(cf.sample, "CorrFunc.sample")  # earlier evaluation on the same object
+        elif prior == "get_array":
+            for member in cf.to_dict().values():
+                ck.call(member.get_array, "NormalisedCounts.get_array")
         ok, s = ck.call(cf.sample, "CorrFunc.sample")
     if not ok:
         return ck.results()
+    if prior:
+        ck.cls(f"prior:{prior}")
     ck.expect(_match_any(s.data, outs, atol), "CorrFunc.sample:data", lambda: f"{s.data} vs {outs}")
     ck.expect(s.samples.shape[0] == npatch, "CorrFunc.sample:num-samples", str(s.samples.shape))
     refs = [_cf_reference(c, k) for k in range(npatch)]
